@@ -12,7 +12,7 @@ use crate::{
 };
 
 use super::{
-    semtype::{BddMemoEmptyRef, MemoEmpty, SemType, SemTypeOps},
+    semtype::{BddMemoEmptyRef, MemoEmpty, MemoKey, SemType, SemTypeOps},
     subtype::{ProperSubtype, StringLitOrFormat, SubType, SubTypeTag},
 };
 #[derive(Debug, Clone)]
@@ -539,6 +539,7 @@ pub fn list_is_empty(bdd: &Rc<Bdd>, builder: &mut SemTypeContext) -> Result<IsEm
             MemoEmpty::False(ev) => return Ok(*ev),
             MemoEmpty::Undefined => {
                 // we got a loop
+                builder.memo_loop(&MemoKey::List((**bdd).clone()));
                 return Ok(IsEmptyStatus::IsEmpty);
             }
         },
@@ -546,15 +547,23 @@ pub fn list_is_empty(bdd: &Rc<Bdd>, builder: &mut SemTypeContext) -> Result<IsEm
             builder
                 .list_memo
                 .insert((**bdd).clone(), BddMemoEmptyRef(MemoEmpty::Undefined));
+            builder.memo_enter(MemoKey::List((**bdd).clone()));
         }
     }
 
-    let is_empty = bdd_every_result(bdd, &None, &None, list_formula_is_empty, builder)?;
-    builder
-        .list_memo
-        .get_mut(bdd)
-        .expect("bdd should be cached by now")
-        .0 = MemoEmpty::from_bool(&is_empty);
+    let is_empty = bdd_every_result(bdd, &None, &None, list_formula_is_empty, builder);
+    let provisional = builder.memo_exit();
+    let is_empty = is_empty?;
+    if provisional && is_empty.is_empty() {
+        // only valid under an assumption that is still being checked: do not remember it
+        builder.list_memo.remove(bdd);
+    } else {
+        builder
+            .list_memo
+            .get_mut(bdd)
+            .expect("bdd should be cached by now")
+            .0 = MemoEmpty::from_bool(&is_empty);
+    }
     Ok(is_empty)
 }
 
